@@ -178,4 +178,25 @@ var plans = map[string]Plan{
 			"FloPoCo opcodes are out of reach (flopoco binary absent)",
 		},
 	},
+	"C07": {
+		Pkg:   "c07",
+		Tools: []string{"basm", "bondgo", "neuralbond", "bmqsim", "bondmachine"},
+		Runs: []Run{
+			{Test: "^TestProps$/^inproc_basm$", Checks: checks(20, 400), Shards: shards(3, 8)},
+			{Test: "^TestProps$/^inproc_neuralbond$", Checks: checks(4, 40), Shards: shards(1, 2)},
+			{Test: "^TestProps$/^inproc_bmqsim$", Checks: checks(3, 25), Shards: shards(1, 2)},
+			{Test: "^TestProps$/^inproc_hdl$", Checks: checks(30, 600), Shards: shards(1, 1)},
+			{Test: "^TestProps$/^cli_basm$", Checks: checks(5, 40), Shards: shards(2, 4)},
+			{Test: "^TestProps$/^cli_neuralbond$", Checks: checks(2, 8), Shards: shards(1, 2)},
+			{Test: "^TestProps$/^cli_bmqsim$", Checks: checks(2, 5), Shards: shards(1, 2)},
+			{Test: "^TestProps$/^cli_bondgo$", Checks: checks(8, 60), Shards: shards(1, 1)},
+			{Test: "^TestProps$/^cli_bondmachine$", Checks: checks(8, 60), Shards: shards(1, 1)},
+		},
+		Assumptions: []string{
+			"every input is run N times (6 quick, 30 thorough) as fresh child processes with GOMAXPROCS cycling 1/2/16 (CLI entries) or executed twice in-process on fresh instances with the process-wide registries reset; a nondeterminism with per-run probability p is missed with (1-p)^(N-1)",
+			"log timestamps are stripped and goroutine dumps of a crashing tool are cut after the panic line; no artefact on the exercised paths embeds time or randomness by design",
+			"a bondgo run that hits the timeout is dropped from the comparison (termination is C12's question); bondmachine -create-verilog without -simbox-file crashes deterministically after writing the files, which are still compared",
+			"machines with fxp opcodes are kept out of the HDL entries (their Verilog is read from /tmp/fxpcode, absent here)",
+		},
+	},
 }
